@@ -27,7 +27,7 @@ META = {
     'quotas': {
         'quick': {'copies-compared': 200, 'containers-compared': 9000, 'mutations-applied': 5000, 'side:copy': 2000,
                   'side:original': 2000, 'mutation:ttc-nested': 200, 'mutation:tags': 300, 'mutation:extras-nested': 80,
-                  'class:highest-id-removed-before-copy': 40, 'class:copy-with-attackers': 100, 'next-ids-compared': 200},
+                  'class:highest-id-removed-before-copy': 40, 'class:copy-with-attackers': 100, 'next-ids-compared': 200, 'mutation:op:attach': 100},
         'thorough': {'copies-compared': 40000, 'containers-compared': 1000000, 'mutations-applied': 600000},
     },
 }
@@ -147,6 +147,8 @@ def mutate(rng, world, k, res, count=True):
         op = C09.gen_history(rng, 1, False)[0]
         if op[0] in ('deepcopy', 'save-load', 'switch', 'regenerate', 'attach'):
             op = ['remove_node', rng.randrange(1000)]
+        if g.model is not None and rng.random() < 0.15:
+            op = ['attach']          # resolves entry points: must stay inside this graph
         world.cur = k
         C09.apply(world, op)
         return 'op:' + op[0]
